@@ -10,42 +10,42 @@ CHECKS = {
     'C01': (
         'exploration',
         'property-based testing: Hypothesis-generated and exhaustively enumerated (program, schedule) cases on a harness-owned event loop; trace invariant over the lifecycle graph',
-        'Every announced transition and every state sampled after every single event-loop callback is checked against the documented lifecycle graph, for all placements of up to K control requests (exhaustive for K<=2 quick / K<=3 thorough on 9 catalogue programs, Hypothesis-generated programs beyond), each run ending with a post-mortem burst of every control call and all late callbacks. Exploration is the right level: the property is a safety invariant over schedules that the harness can own completely for this single-threaded asyncio library.',
+        'Every announced transition and every state sampled after every single event-loop callback is checked against the documented lifecycle graph, for all placements of up to K control requests (exhaustive for K<=2 quick / K<=3 thorough on 9 catalogue programs, Hypothesis-generated programs beyond), each run ending with a post-mortem burst of every control call and all late callbacks (also applied to a copy loaded from the terminal checkpoint); requests are additionally issued from 17 lifecycle-hook sites and against workchains; the sampled state must equal the last announced state and the outcome (exception object, kill text, result) of a terminated process must never change. Exploration is the right level: the property is a safety invariant over schedules that the harness can own completely for this single-threaded asyncio library.',
         'Trusts the StepLoop (FIFO execution of asyncio ready handles, external requests injected between two callbacks) and the public observers (state, has_terminated, ENTERED_STATE callbacks). Raising lifecycle hooks are excluded (C03).',
         'DESIGN.md section 3 C01',
     ),
     'C02': (
         'exploration',
         'property-based testing: generated/enumerated (program, schedule, listener plan) cases on a harness-owned event loop; agreement matrix over all outcome views plus a per-callback future/terminated invariant',
-        'After every single event-loop callback the future-done => terminated invariant is checked; at the end result(), successful(), is_successful, killed(), killed_msg(), exception(), future(), listener notifications, cleanups, closedness and done-ness of the step_until_terminated() task are compared with each other and with what the program returned/raised and which kill texts were issued. Exhaustive for K<=2 (quick) / K<=3 (thorough) requests on 7 catalogue programs plus listener-issued calls; Hypothesis-generated programs beyond.',
+        'After every single event-loop callback the future-done => terminated invariant is checked; at the end result(), successful(), is_successful, killed(), killed_msg(), exception(), future(), listener notifications, cleanups, closedness and done-ness of the step_until_terminated() task are compared with each other and with what the program returned/raised and which kill texts were issued. Exhaustive for K<=2 (quick) / K<=3 and K=4 in one window (thorough) requests on 7 catalogue programs plus listener-issued and hook-issued calls, with one of three cleanups optionally raising; Hypothesis-generated programs beyond.',
         'Trusts the StepLoop (FIFO execution of asyncio ready handles, external requests injected between two callbacks; OS-thread races out of scope) and the public observers. Lifecycle hooks do not raise (C03).',
         'DESIGN.md section 3 C02',
     ),
     'C04': (
         'exploration',
         'property-based testing: small-scope exhaustive enumeration + Hypothesis over (program, schedule of pause/play/kill/resume/future-cancel, self-directed calls, listener-issued calls); tick-agnostic trace predicates and a probing kill from every live end configuration',
-        'Every kill issued on a live process must not raise, must end the process KILLED (EXCEPTED only with an exception the program itself raised), its return value/future must resolve True exactly when KILLED, the text must be recorded, future().cancel() must behave like kill(), and from every live end configuration one more kill() must terminate the process. Exhaustive over the 5-request alphabet for K<=2 (quick) / K<=3 (thorough) at all tick placements on 6 catalogue programs, all in-step call sequences of length <=2/3, and listener-issued calls at 4 notifications.',
+        'Every kill issued on a live process must not raise, must end the process KILLED (EXCEPTED only with an exception the program itself raised), its return value/future must resolve True exactly when KILLED, the text must be recorded, future().cancel() must behave like kill(), and from every live end configuration one more kill() must terminate the process. Exhaustive over the 5-request alphabet for K<=2 (quick) / K<=3 (thorough) at all tick placements on 6 catalogue programs, all in-step call sequences of length <=2/3, and listener-issued calls at 4 notifications; workchains awaiting harness futures; a step failing after the kill request must end EXCEPTED and no step may be entered after a kill().',
         'Trusts the StepLoop (FIFO execution of asyncio ready handles, external requests injected between two callbacks; OS-thread races out of scope) and the public observers. Lifecycle hooks do not raise (C03).',
         'DESIGN.md section 3 C04',
     ),
     'C05': (
         'exploration',
         'property-based testing: metamorphic twin-run oracle (run with pause/play/resume requests vs the uninterrupted run with the same logical wake-ups), small-scope exhaustive + Hypothesis',
-        'The executed step sequence with arguments, outputs, final state, result and final status must equal those of the twin run; no step entry or resumption may observe paused=True; pause()/play() never raise; play() leaves the process un-paused and it stays so until the next pause request; a pause that is not withdrawn takes effect before any further step; the status present before a pause is restored by the play that ends it. Exhaustive for K<=2 (quick) / K<=3 and K=4 on waits (thorough).',
+        'The executed step sequence with arguments, outputs, final state, result and final status must equal those of the twin run; no step entry or resumption may observe paused=True; pause()/play() never raise; play() leaves the process un-paused and it stays so until the next pause request; a pause that is not withdrawn takes effect before any further step; the status present before a pause is restored by the play that ends it. Exhaustive for K<=2 (quick) / K<=3 and K=4 on waits (thorough), plus workchains and pause/play around a termination.',
         'Trusts the StepLoop (FIFO execution of asyncio ready handles, external requests injected between two callbacks; OS-thread races out of scope) and the public observers. Lifecycle hooks do not raise (C03).' + ' Steps are deterministic functions of their arguments (generated programs guarantee it).',
         'DESIGN.md section 3 C05',
     ),
     'C06': (
         'exploration',
         'property-based testing: exhaustive enumeration of all orders and tick gaps of wake-up events versus pause/play requests, plus Hypothesis; liveness checked as quiescence; twin-run reference for exactly-once delivery',
-        'After all enabling events were delivered, the process was played and the loop is empty, the process must not be WAITING; the continuation must have run exactly once with the first resume value (compared with the twin run); no exception may reach the loop handler. The completion phase never re-delivers a wake-up, so a lost one cannot be masked.',
+        'After all enabling events were delivered, the process was played and the loop is empty, the process must not be WAITING; the continuation must have run exactly once with the first resume value (compared with the twin run); no exception may reach the loop handler. The completion phase never re-delivers a wake-up, so a lost one cannot be masked. Workchains awaiting futures and launched children are included, also with failing or killed items around pause/play.',
         'Trusts the StepLoop (FIFO execution of asyncio ready handles, external requests injected between two callbacks; OS-thread races out of scope) and the public observers. Lifecycle hooks do not raise (C03).',
         'DESIGN.md section 3 C06',
     ),
     'C03': (
         'fault_enumeration',
         'fault injection driven by property-based generation: complete enumeration of (hook / step function / callback / listener notification, occurrence, before|after super()) fault points per scenario, one injected fault per run, per-fault-class oracle',
-        'For 8 catalogue scenarios (plain, pause/play, pause before start, kill while waiting, kill before start, async with outputs and callbacks, async with pause and kill, Kill command) every fault point counted by a fault-free dry run is executed once with the fault injected: construction-time hooks must propagate from the constructor; pause/play hook faults must reach the requester and leave the process controllable; listener faults and late callbacks must change nothing; every other fault must end EXCEPTED with exactly the injected exception on exception() and future(), closed, stepping task done, nothing escaped to the loop. Hypothesis adds generated scenarios with a drawn fault point.',
+        'For 11 catalogue scenarios (plain, pause/play, pause before start, kill while waiting, kill before start, async with outputs and callbacks, async with pause and kill, Kill command, kill while paused in two shapes, callback while paused) every fault point counted by a fault-free dry run is executed once with the fault injected: construction-time hooks must propagate from the constructor; pause/play hook faults must reach the requester and leave the process controllable (a further pause() is probed); listener faults and late callbacks must change nothing; every other fault must end EXCEPTED with exactly the injected exception on exception() and future(), closed, stepping task done, nothing escaped to the loop. Hypothesis adds generated scenarios with a drawn fault point.',
         'One injected fault per run and no other failure in it. The injector is an override in the generated class that calls super(); faults are plain Exception subclasses. Known finding KF-C03-1 (fault after close()) is excluded by signature and counted in the evidence.',
         'DESIGN.md section 3 C03',
     ),
@@ -73,7 +73,7 @@ CHECKS = {
     'C07': (
         'exploration',
         'property-based testing: round-trip oracle (save, load, save = save; loaded accessors = original accessors) at every state entry and paused point, through three media and two loader configurations',
-        'Generated process programs (nested inputs, nested/dynamic outputs, wait msg/data, continuation args and kwargs over JSON scalars, nested containers, tuples and UUIDs; finished/unsuccessful/excepted/killed endings; pause/kill schedules) and workchain outlines are checkpointed at every ENTERED_STATE and every paused quiescent point; each checkpoint travels as deep copy, pickle and YAML into a fresh event loop and is saved again: bundles must be structurally identical (exceptions by type+args, traceback text ignored) and pid/state/raw_inputs/inputs/outputs/ctx/status/paused/creation_time/outcome accessors equal.',
+        'Generated process programs (nested inputs, nested/dynamic outputs, wait msg/data, continuation args and kwargs over JSON scalars, nested containers, tuples and UUIDs; finished/unsuccessful/excepted/killed endings; pause/kill schedules) and workchain outlines are checkpointed at every ENTERED_STATE and every paused quiescent point; checkpoints are also taken from inside 8 lifecycle hooks, for a class with a non-identity input/output codec and for spec'd inputs with non-constant callable defaults; each checkpoint travels as deep copy, pickle and YAML into a fresh event loop and is saved again: bundles must be structurally identical (exceptions by type+args, traceback text ignored) and pid/state/raw_inputs/inputs/outputs/ctx/status/paused/creation_time/outcome accessors equal.',
         'tblib absent (traceback text ignored as the statement allows). A workchain WAITING on live futures is not savable and is counted, not judged. The custom loader is given in both save and load contexts.',
         'DESIGN.md section 3 C07',
     ),
@@ -115,14 +115,14 @@ CHECKS = {
     'C19': (
         'exploration',
         'property-based testing: generated class shapes / member kinds / loader configurations with a round-trip oracle (members restored, save(recreated) = save(original)), a copy-at-save metamorphic test and loader-use counters',
-        'Generated inheritance chains (<=4 levels, sibling branch) of Savable classes declared with @auto_persist; members over plain nested values, bound methods, nested Savables (depth 3) and SavableFutures in all four states; default / global custom / per-save custom loaders with and without a loader in the load context. Checked: declaration sets per class (no leakage), saved keys, every declared member restored by kind, deep mutation of the original after save() leaves the saved state untouched, custom loader recorded at save is the one resolving the class at load, tampered identifiers raise ValueError.',
+        'Generated inheritance chains (<=4 levels, sibling branch) of Savable classes declared with @auto_persist; members over plain nested values, bound methods, nested Savables (depth 3) and SavableFutures in all four states; default / global custom / per-save custom loaders (also with a different loader installed globally), with and without a loader in the load context. Checked: declaration sets per class (no leakage), saved keys, every declared member restored by kind, deep mutation of the original after save() leaves the saved state untouched, custom loader recorded at save is the one resolving the class at load, tampered identifiers raise ValueError.',
         'Only the @auto_persist decorator declares members; custom loaders fall back to the default loader for foreign identifiers; futures are recreated on the loop given in the load context.',
         'DESIGN.md section 3 C19',
     ),
     'C20': (
         'exploration',
         'property-based testing with an innermost-outcome model: exhaustive enumeration of chain depth x terminal outcome x completion order x callback draining for three adapters, plus operation sequences on CancellableAction',
-        'For unwrap_kiwi_future, plum_to_kiwi_future+unwrap and Process._schedule_rpc every chain of depth <=3 (quick) / <=4 and sampled 5 (thorough) of futures resolving to futures is completed in every order: the adapter future must stay pending until all levels are connected and then carry exactly the innermost value object, exception object or cancellation. create_task must deliver the coroutine result/exception once. CancellableAction: function called at most once with the given arguments, outcome readable on the action, second run and run after cancel refused.',
+        'For unwrap_kiwi_future, plum_to_kiwi_future+unwrap and Process._schedule_rpc every chain of depth <=3 (quick) / <=4 and sampled 5 (thorough) of futures resolving to futures is completed in every order: the adapter future must stay pending until all levels are connected and then carry exactly the innermost value object, exception object or cancellation. create_task must deliver the coroutine result/exception once. create_task and LoopCommunicator deliveries made from a real second thread (joined before looking) must wake the loop. CancellableAction: function called at most once with the given arguments, outcome readable on the action, second run and run after cancel refused.',
         'Thread hand-offs are modelled as loop callbacks at generated positions; handler errors of _schedule_rpc are compared through __cause__.',
         'DESIGN.md section 3 C20',
     ),
@@ -136,14 +136,14 @@ CHECKS = {
     'C17': (
         'exploration',
         'stateful / model-based property testing: generated task histories against a model of replies, persister content and per-instance executed steps, for every launcher configuration',
-        'ProcessLauncher is driven directly and through LoopCommunicator(LocalCommunicator) with every combination of persister (none / in-memory / pickle) and loader (default / custom counting loader): create, launch and continue tasks with persist / nowait / tag flags over four process classes, harness checkpoints under tags, resumes and unknown task types. Checked: replies (pid / outputs / process error / TaskRejected), that a created process never runs, that a continued instance executes exactly the steps after its checkpoint, persister keys, rejected tasks have no effect, the configured loader resolves classes. All single tasks and a family of task pairs are enumerated per configuration.',
+        'ProcessLauncher is driven directly and through LoopCommunicator(LocalCommunicator) with every combination of persister (none / in-memory / pickle), loader (default / custom counting loader) and load context (given or not): create, launch and continue tasks with persist / nowait / tag flags over five process classes (one fails in on_finished after finishing), harness checkpoints under tags, resumes and unknown task types. Checked: replies (pid / outputs / process error / TaskRejected), that a created process never runs, that a continued instance executes exactly the steps after its checkpoint, persister keys, rejected tasks have no effect, the configured loader resolves classes. All single tasks and a family of task pairs are enumerated per configuration.',
         'pids are explicit constructor keyword arguments; a continue for an absent checkpoint must fail without running anything.',
         'DESIGN.md section 3 C17',
     ),
     'C18': (
         'exploration',
         'property-based testing over generated process sets and FIFO interleavings on the harness-owned loop; Process.current() sampled at every user-code point and between callbacks',
-        'Up to 4 generated processes with async steps, gates, launched children, re-entrantly executed processes (nest_asyncio on the harness loop, in dedicated worker processes) and call_soon callbacks run on one loop with staggered starts: current() must be the running process at every step entry, after every await, in every callback, after launch() and after a nested execute(), and in every lifecycle hook the run produces by itself; the harness must see None between callbacks. All pairs (quick) / triples (thorough) of 6 catalogue shapes at 3 start offsets are enumerated.',
+        'Up to 4 generated processes with async steps, gates, launched children, re-entrantly executed processes (nest_asyncio on the harness loop, in dedicated worker processes) call_soon callbacks (also scheduled on the parent from a child's step), children stepped in the parent's own task, control requests on children and self-pauses run on one loop with staggered starts: current() must be the running process at every step entry, after every await, in every callback, after launch() and after a nested execute(), and in every lifecycle hook the run produces by itself; the harness must see None between callbacks. All pairs (quick) / triples (thorough) of 6 catalogue shapes at 3 start offsets are enumerated.',
         'Construction-time hooks and hooks triggered by external pause/play/kill run in the caller and are not sampled; no control requests.',
         'DESIGN.md section 3 C18',
     ),
